@@ -69,6 +69,8 @@ class GlencoeReader(TextToModel):
                     card_min = features_info[feature_id]["min"]
                     card_max = features_info[feature_id]["max"]
                     relation = Relation(feature, children, card_min, card_max)
+                else:
+                    raise FlamaException(f"Invalid feature type in Glencoe: {feature_type}")
                 feature.add_relation(relation)
         # Create an attribute for the 'note' parameter
         # note = features_info[feature_id]['note']
